@@ -76,6 +76,8 @@ def datum_tol_ppb(x):
 
     A composition typed as 0.9493 is known to +-0.00005; one computed in double precision to +-1 ppb (the export's own
     rounding).  This is the 'data precision' of the mass-fraction clause."""
+    if float(x).is_integer():  # 0.0 and 1.0 are exact statements ("it is all sodium"), not one-decimal data
+        return 1
     s = repr(float(x))
     if "e" in s or "E" in s:
         mant, exp = s.lower().split("e")
@@ -122,7 +124,8 @@ def ensure_burn_chain():
     return path
 
 
-def export_directory(chain_path=None):
+def observe_directory():
+    """rows / idx / elements of the module-level state as it is now (also used on the sandboxed state of the factory replay)."""
     armi_ready()
     from armi.nucDirectory import elements, nuclideBases as nb
 
@@ -160,9 +163,13 @@ def export_directory(chain_path=None):
             "bySymbol": eidx.get(id(elements.bySymbol.get(e.symbol)), 0),
             "byName": eidx.get(id(elements.byName.get(e.name)), 0),
         })
-    out = {"rows": rows, "idx": idx, "elements": els,
-           "nElemSymbol": len(elements.bySymbol), "nElemName": len(elements.byName)}
-    out.update(export_chain(chain_path, rowof))
+    return {"rows": rows, "idx": idx, "elements": els,
+            "nElemSymbol": len(elements.bySymbol), "nElemName": len(elements.byName)}
+
+
+def export_directory(chain_path=None):
+    out = observe_directory()
+    out.update(export_chain(chain_path))
     return out
 
 
@@ -170,7 +177,7 @@ def _entry(parent, cat, t):
     return {"parent": parent, "cat": cat, "type": str(t.type), "products": [str(p) for p in t.productNuclides], "branch": q_unit(t.branch)}
 
 
-def export_chain(chain_path, rowof):
+def export_chain(chain_path=None):
     """chainFile: what the burn-chain file names; chainLive: what hangs on the nuclides after imposeBurnChain."""
     from ruamel.yaml import YAML
 
